@@ -1,0 +1,16 @@
+//go:build verif
+
+package mpb
+
+// VerifHook, when set, is called at named points of the library's internal
+// goroutines. It exists only under the verif build tag and is used by
+// /verif/realrepro to force, on the real Go runtime, a schedule that the model
+// checker found (it can only delay a goroutine at a point where the Go
+// scheduler may delay it anyway).
+var VerifHook func(point string)
+
+func verifYield(point string) {
+	if h := VerifHook; h != nil {
+		h(point)
+	}
+}
